@@ -34,6 +34,9 @@ class Extract:
         self.keep_vis = False
         self.external_body = False  # emit signature+contract only (callee represented by contract)
         self.drop_fields = []
+        self.derives = []
+        self.cut_after = None
+        self.attrs = []
         # outputs
         self.meta = {}
 
@@ -113,6 +116,10 @@ def parse(template_text):
                             ex.props = v.split()
                         elif k == 'external_body':
                             ex.external_body = True
+                        elif k == 'derives':
+                            ex.derives = [x.strip() for x in v.split(',') if x.strip()]
+                        elif k == 'attr':
+                            ex.attrs.append(v)
                         elif k == 'drop_fields':
                             ex.drop_fields = [x.strip() for x in v.split(',') if x.strip()]
                         else:
@@ -167,6 +174,15 @@ def expand_extract(ex, canary=False):
         loc = rsrc.find_type(src, ex.kind, ex.name, m)
         orig = src[loc['start']:loc['body_close'] + 1]
         text = orig
+        if ex.derives:
+            # keep the listed derives of the real type if (and only if) the real type has them
+            pre = src[max(0, loc['start'] - 400):loc['start']]
+            dm = re.findall(r'#\[derive\(([^)]*)\)\]', pre.split('}')[-1])
+            have = set(x.strip() for d in dm for x in d.split(','))
+            missing = [d for d in ex.derives if d not in have]
+            if missing:
+                raise AnchorLost('%s %s no longer derives %s' % (ex.kind, ex.name, missing))
+            text = '#[derive(%s)]\n' % ', '.join(ex.derives) + text
         text, n = rules.strip_attrs(text)
         if ex.cells:
             text, n = rules.r5_types(text, ex.cells)
@@ -225,22 +241,28 @@ def expand_extract(ex, canary=False):
         emitted = '#[verifier::external_body]\n' + new_sig + '\n' + contract + '{ unimplemented!() }\n'
     else:
         emitted = new_sig + '\n' + contract + text + '\n'
+    for a in ex.attrs:
+        emitted = a + '\n' + emitted
     twin = None
     if canary and not ex.external_body:
         # twin: same body, name suffixed, postcondition `false` (must-panic variants: the diverging
         # helpers become no-ops instead).  The original is emitted unchanged so callers see the real contract.
         tsig = re.sub(r'\bfn\s+(\w+)', lambda q: 'fn ' + q.group(1) + '__canary', new_sig, count=1)
         if mode == 'diverge':
-            tbody = text.replace('vx_diverge()', 'vx_nop()').replace('vx_assert_or_diverge(', 'vx_nop_b(')
-            twin = tsig + '\n' + contract + tbody + '\n'
+            # must-panic variant: its contract already ends in `false`; the vacuity question is whether its
+            # `requires` (with the trusted specs in scope) is satisfiable, so the twin keeps the contract
+            # and replaces the body by one that returns an arbitrary value: it must be rejected.
+            twin = tsig + '\n' + contract + '{ vx_any() }\n'
         else:
             twin = tsig + '\n' + canary_contract(contract) + text + '\n'
+        for a in ex.attrs:
+            twin = a + '\n' + twin
     ex.meta = dict(id=ex.id, kind='fn', file=ex.file, line=rsrc.line_of(src, loc['start']),
                    end_line=rsrc.line_of(src, loc['body_close']),
                    sha256=hashlib.sha256(orig.encode()).hexdigest(), rules=fired,
                    n_loops=n_loops_orig, orig=orig, emitted=emitted, orig_sig=rsrc.norm(sig),
                    external_body=ex.external_body, panics=mode, cfg=ex.cfg,
-                   sig_lines=new_sig.count('\n') + 1, contract_lines=contract.count('\n'), twin=twin)
+                   sig_lines=new_sig.count('\n') + 1 + len(ex.attrs), contract_lines=contract.count('\n'), twin=twin)
     return emitted
 
 
